@@ -809,8 +809,8 @@ def build_view(facts, policy, roles=None, max_rounds=6, protect=()):
     def lower_all():
         k = 0
         for r in list(raws):
-            if r not in raws:
-                continue
+            if r not in raws or r["path"] in protect:
+                continue          # accessors and "old length or 0" helpers are recognised by their shape: they keep it
             sites = []
             tot = 0
             for _i in range(6):
